@@ -902,7 +902,8 @@ class HostileWorld(MediaBase):
         rb = lambda n: bytes(r.randrange(256) for _ in range(n))   # noqa: E731
         c = self.last_cipher or rb(60)
         if cls == "raw-random":
-            return rb(r.choice([1, 2, 13, 100, 1500]))
+            # (a UDP datagram may be far larger than any MTU: the IP layer fragments and reassembles it)
+            return rb(r.choice([1, 2, 13, 100, 1500, 1501, 4000, 20000, 65000]))
         if cls == "raw-empty":
             return b""
         if cls == "raw-one-byte":
@@ -913,9 +914,10 @@ class HostileWorld(MediaBase):
             i = r.randrange(len(c))
             return c[:i] + bytes([c[i] ^ (1 << r.randrange(8))]) + c[i + 1:]
         if cls == "raw-dtls-like":
-            return bytes([r.choice([20, 21, 22, 23, 24, 25, 63])]) + b"\xfe\xfd" + rb(r.choice([0, 10, 11, 30]))
+            return bytes([r.choice([20, 21, 22, 23, 24, 25, 63])]) + b"\xfe\xfd" + rb(r.choice([0, 10, 11, 30, 1600, 20000]))
         if cls == "raw-srtp-like":
-            return bytes([r.choice([128, 129, 144, 160, 191]), r.choice([96, 200, 201, 205, 206, 127])]) + rb(r.choice([0, 2, 10, 40]))
+            return bytes([r.choice([128, 129, 144, 160, 191]), r.choice([96, 200, 201, 205, 206, 127])]) + \
+                rb(r.choice([0, 2, 10, 40, 1400, 1497, 1498, 1499, 1600, 9000, 65000]))
         return b"\x00\x01\x00\x00\x21\x12\xa4\x42" + rb(12)      # a STUN binding request (consumed by the ICE agent)
 
     async def inject(self, cls, k):
